@@ -1,13 +1,13 @@
 from .base import *
 
 ID = 'C14'
-THEOREMS = ['C14_same', 'C14_opposite', 'C14_path_symmetric', 'C14_general_history', 'C14_general_upper', 'C14_general_bounds', 'C14_new_blade_upper', 'C14_upper_inhabited', 'C14_general_commutes', 'C14_grade_of_signs', 'C14_grade_from_direction']
+THEOREMS = ['C14_same', 'C14_opposite', 'C14_path_symmetric', 'C14_general_history', 'C14_general_upper', 'C14_general_bounds', 'C14_new_blade_upper', 'C14_upper_inhabited', 'C14_general_commutes', 'C14_grade_of_signs', 'C14_grade_from_direction', 'C14_running_sum', 'C14_step_blades', 'C14_running_defs', 'C14_running_inhabited']
 OWNED = {'GAdd'}
 RULE = ('pairs with identical angles, exactly opposite angles (built with negate/dual/conjugate), and angles more than 1e-9 rad from both; magnitudes equal / within 1e-10 / ulps apart / different; blades to 2^40; '
         'a+b and b+a; running sums. non-trivial = sum differs from both operands')
 TRUSTED = TRUSTED_COMMON
 ASSUMPTIONS = ASSUME_COMMON
-S3_LEGS = ['general case: blade in [sum, sum+4] with +4 only at remainder 0, grade fixed by the Cartesian direction, a+b / b+a same blade: predicates add_general_blades, grade_from_direction, same_blade_rem (no theorem yet)']
+S3_LEGS = ['general case: blade >= sum (C14_general_history), <= sum+4 with the bound inhabited (C14_general_upper/_bounds), commutes (C14_general_commutes), grade fixed by the signs of the Cartesian components (C14_grade_from_direction) are theorems; running sums over sequences are decided by predicates add_general_blades, grade_from_direction, same_blade_rem on generated sequences only']
 
 def generate(rng, tier):
     n = 260 if tier == 'quick' else 8000
@@ -58,5 +58,5 @@ def generate(rng, tier):
     return cases
 
 LEVEL_TEXT = ('Kernel-checked theorems for every libm: identical angles -> the sum keeps that angle with magnitude fadd; exactly opposite -> |diff| < 1e-10 gives zero magnitude at new_with_blade(blade a + blade b, 0), '
-              'otherwise the larger summand\'s angle is kept bit-for-bit; the opposite-test is symmetric so a+b and b+a take the same path. C14_general_history: on the general path the angle of the sum is canonical and carries at least blade a + blade b blades whenever the re-encoded total is finite and at most 2^42 (history is never lost). C14_general_upper / C14_general_bounds: the sum carries AT MOST one full turn (4 blades) more than blade a + blade b, and exactly one full turn only with a remainder below 2^-8 (the rounding of the re-encoding at totals up to 2^42; the predicate enforces 1e-10 + 8 ulp(blade*pi/2) on the cases of each run) - under the single explicit premise that atan2 returned a finite value in [-PI, PI] (monitored on every recorded call), for blade sums below 2^40; C14_new_blade_upper is the underlying fact about Angle::new (proved through a new upper bound on the lift of negative totals). C14_general_commutes: on the general path a+b and b+a carry bit-for-bit the same angle (every libm, every operand). C14_grade_from_direction: the grade of a+b IS the quadrant of the Cartesian sum V whenever V is further than the tolerance T of C06_cartesian from both axes (REAL pi, cos/sin/atan2 accuracy as explicit premises); within T of an axis it is decided by predicates (S3).')
+              'otherwise the larger summand\'s angle is kept bit-for-bit; the opposite-test is symmetric so a+b and b+a take the same path. C14_general_history: on the general path the angle of the sum is canonical and carries at least blade a + blade b blades whenever the re-encoded total is finite and at most 2^42 (history is never lost). C14_general_upper / C14_general_bounds: the sum carries AT MOST one full turn (4 blades) more than blade a + blade b, and exactly one full turn only with a remainder below 2^-8 (the rounding of the re-encoding at totals up to 2^42; the predicate enforces 1e-10 + 8 ulp(blade*pi/2) on the cases of each run) - under the single explicit premise that atan2 returned a finite value in [-PI, PI] (monitored on every recorded call), for blade sums below 2^40; C14_new_blade_upper is the underlying fact about Angle::new (proved through a new upper bound on the lift of negative totals). C14_general_commutes: on the general path a+b and b+a carry bit-for-bit the same angle (every libm, every operand). C14_grade_from_direction: the grade of a+b IS the quadrant of the Cartesian sum V whenever V is further than the tolerance T of C06_cartesian from both axes (REAL pi, cos/sin/atan2 accuracy as explicit premises); within T of an axis it is decided by predicates (S3). C14_running_sum (RunSum.v, induction over sequences of ANY length): with atan2 finite and within [-PI, PI] as the only premise on libm, every accumulator of a running sum of canonical operands (blade budget below 2^40) has a canonical angle and a blade count between the smallest blade count among the operands and the sum of all blade counts plus one full turn per addition; C14_step_blades is the one-step form over all three paths.')
 LEVEL_NOTE = ('Partial. Trusted: Coq kernel + vm_compute; 4 standard-library axioms; plus the primitive-integer axioms (PrimInt63.*, Uint63.*_spec) of the Interval tactic for the real-pi theorems; hand-written model validated bit-for-bit each run with the recorded libm table.')
